@@ -42,6 +42,8 @@ type faultPlan struct {
 	writers    map[string]int
 	maxWriters int
 	gate       func(name string, chunk int) // called before each source Read during a copy
+	// the next read-only Opens of the cache store fail with a transient error
+	storeOpenHiccups, hiccupsFired int
 }
 
 func (p *faultPlan) call(site string) error {
@@ -132,7 +134,19 @@ type faultStore struct {
 	writeBack bool
 }
 
-func (s *faultStore) Open(name string) (hackpadfs.File, error) { return s.inner.Open(name) }
+func (s *faultStore) Open(name string) (hackpadfs.File, error) {
+	s.plan.mu.Lock()
+	hiccup := s.plan.storeOpenHiccups > 0
+	if hiccup {
+		s.plan.storeOpenHiccups--
+		s.plan.hiccupsFired++
+	}
+	s.plan.mu.Unlock()
+	if hiccup {
+		return nil, &hackpadfs.PathError{Op: "open", Path: name, Err: errFill} // a transient failure, not "does not exist"
+	}
+	return s.inner.Open(name)
+}
 func (s *faultStore) Mkdir(name string, perm hackpadfs.FileMode) error {
 	return s.inner.Mkdir(name, perm)
 }
@@ -386,6 +400,7 @@ func c11fault(env *core.Env, cs c11case, res *core.CaseResult) {
 	sites := append([]string(nil), clean.plan.log...)
 	res.Evals = n
 	res.Sample = map[string]any{"case": cs, "calls_of_a_clean_fill": sites}
+	c11storeHiccup(cs, name, want, files, sites, res)
 	for kk := 0; kk < 3*n; kk++ {
 		// second round: the first retry after the failed fill meets a source that cannot be opened;
 		// third round: the cache store stays down from the failing call until the Open has returned (then recovers)
@@ -446,10 +461,86 @@ func c11fault(env *core.Env, cs c11case, res *core.CaseResult) {
 			w.plan.outage = false
 			w.plan.mu.Unlock()
 		}
+		// (the first re-open goes through a Sub view of the cache: the same cache seen from one of its directories)
+		if view, verr := hackpadfs.Sub(w.cache, "d"); verr == nil {
+			got, err := readAll(view, strings.TrimPrefix(name, "d/"))
+			res.Count("reopens_through_a_sub_view", 1)
+			if err == nil && string(got) != string(want) {
+				res.Violate(fmt.Sprintf("C11|%s|fault:%s|later-open-partial", cs.Store, w.plan.fired), fmt.Sprintf("after a fill that failed at %s (call #%d), a re-open through hackpadfs.Sub(cache, \"d\") delivered %d of %d bytes without an error", w.plan.fired, k, len(got), len(want)), wit)
+			}
+		}
 		for again := 0; again < 3; again++ {
 			got, err := readAll(w.cache, name)
 			if err == nil && string(got) != string(want) {
 				res.Violate(fmt.Sprintf("C11|%s|fault:%s|later-open-partial", cs.Store, w.plan.fired), fmt.Sprintf("after a fill that failed at %s (call #%d), re-open #%d delivered %d of %d bytes without an error", w.plan.fired, k, again+1, len(got), len(want)), wit)
+				break
+			}
+		}
+	}
+}
+
+// c11storeHiccup: the file is cached completely and an earlier handle on it is still unread when a later Open meets a
+// cache store whose read-only Open fails once with a transient error. That Open fails or delivers everything; so does
+// the earlier handle (read while a possible re-fill is running, or after a re-fill that failed half-way), and so do later opens.
+func c11storeHiccup(cs c11case, name string, want []byte, files map[string][]byte, sites []string, res *core.CaseResult) {
+	var reads []int
+	for i, s := range sites {
+		if s == "source.Read" {
+			reads = append(reads, i)
+		}
+	}
+	for _, variant := range []string{"held-handle-read-during-the-next-open", "next-open-meets-a-failing-source-read", "plain"} {
+		w, err := newC11World(cs.Store, files, cs.Mode)
+		if err != nil {
+			return
+		}
+		w.plan.shortReads = cs.Source == "short"
+		if got, err := readAll(w.cache, name); err != nil || string(got) != string(want) {
+			return // (reported by the clean fill above)
+		}
+		held, err := w.cache.Open(name)
+		if err != nil {
+			res.Violate(fmt.Sprintf("C11|%s|store-open-hiccup|second-open-failed", cs.Store), fmt.Sprintf("a second fault-free Open of a completely cached %d-byte file failed: %v", len(want), err), cs)
+			return
+		}
+		var heldData []byte
+		var heldErr error
+		heldRead := false
+		readHeld := func() {
+			if !heldRead {
+				heldRead = true
+				heldData, heldErr = io.ReadAll(held)
+			}
+		}
+		w.plan.mu.Lock()
+		w.plan.storeOpenHiccups = 1
+		switch variant {
+		case "held-handle-read-during-the-next-open":
+			w.plan.gate = func(string, int) { readHeld() }
+		case "next-open-meets-a-failing-source-read":
+			if len(reads) > 0 {
+				w.plan.failAt = w.plan.n + reads[len(reads)/2]
+			}
+		}
+		w.plan.mu.Unlock()
+		wit := map[string]any{"case": cs, "variant": variant}
+		got, oerr := readAll(w.cache, name)
+		res.Count("store_open_hiccup_runs", 1)
+		if oerr == nil && string(got) != string(want) {
+			res.Violate(fmt.Sprintf("C11|%s|store-open-hiccup|open-partial", cs.Store), fmt.Sprintf("[%s] the Open that met a transient error of the cache store's read-only Open delivered %d of %d bytes without an error", variant, len(got), len(want)), wit)
+		}
+		readHeld()
+		_ = held.Close()
+		if heldErr == nil && string(heldData) != string(want) {
+			res.Violate(fmt.Sprintf("C11|%s|store-open-hiccup|earlier-handle-partial", cs.Store), fmt.Sprintf("[%s] a handle opened successfully on the completely cached file delivered %d of %d bytes after a later Open met a transient error of the cache store's read-only Open", variant, len(heldData), len(want)), wit)
+		}
+		w.plan.mu.Lock()
+		w.plan.failAt, w.plan.gate, w.plan.storeOpenHiccups = -1, nil, 0
+		w.plan.mu.Unlock()
+		for again := 0; again < 3; again++ {
+			got, err := readAll(w.cache, name)
+			if err == nil && string(got) != string(want) {
+				res.Violate(fmt.Sprintf("C11|%s|store-open-hiccup|later-open-partial", cs.Store), fmt.Sprintf("[%s] re-open #%d after the hiccup delivered %d of %d bytes without an error", variant, again+1, len(got), len(want)), wit)
 				break
 			}
 		}
